@@ -325,8 +325,8 @@ class Scen(CompScenario):
 class Prop(PropBase):
     ID = "C21"
     tiers = {
-        "quick": {"runs": 400, "selftest_runs": 4},
-        "thorough": {"runs": 8000, "selftest_runs": 32},
+        "quick": {"runs": 900, "selftest_runs": 4, "shrink_budget_s": 5},
+        "thorough": {"runs": 16000, "selftest_runs": 32, "shrink_budget_s": 30},
     }
     rule = ("one run = one (transparent, read_on_resp, read ports, write ports, granularity, shape, memory_type, depth) "
             "configuration driven for 60-200 cycles by a seeded phase plan (random / response stall / release / "
@@ -341,7 +341,8 @@ class Prop(PropBase):
     real = ["transactron.lib.storage.MemoryBank", "amaranth.lib.memory.Memory", "transactron multiport memories (as memory_type)",
             "transactron.lib.adapters.AdapterTrans", "TransactionManager + scheduler", "amaranth pysim"]
     stubs = ["cycle driver (stimulus)", "array + per-port response queue reference model"]
-    assumptions = ["addresses stay below depth", "no two write calls address the same row in one cycle (premise)"]
+    assumptions = ["addresses stay below depth", "no two write calls address the same row in one cycle (premise)",
+                   "rows that were never written read as the memory's initial content (zero)"]
     search_space = "MemoryBank configurations x read_req/read_resp/write call histories with response stalls"
 
     ZONE_RATE = 0.13
